@@ -13,7 +13,7 @@ from . import externals
 from .explore import Verdict, prove, prove_split
 from .heap import ALL12, BINARY, DEFPOW, KCODE, LEAF, NONLEAF, POW, UNARY, ExprHeap, Gap, StructureError
 from .interp import Interp, PathState
-from .values import NAN, IdStr, Num, Obj, OutOfSubset, PathAbort, PyRaise, zreal
+from .values import NAN, IdStr, Num, Obj, OutOfSubset, PathAbort, PyRaise, b_and, b_not, tag_of, zbool, zreal
 
 RULE_CONFIGS = [
     ("associative_swap", "mathy_core.rules.associative_swap", "AssociativeSwapRule", {}),
@@ -105,6 +105,7 @@ def c_factor(I, args, kwargs, f):
     from .values import SymDict, DictObj
 
     (value,) = args
+    I.ps.memo["abstraction:factor"] = True  # the table is characterised, not enumerated
     if value is NAN:
         return DictObj({})
     if not isinstance(value, Num):
@@ -114,6 +115,11 @@ def c_factor(I, args, kwargs, f):
     v = z3.simplify(zreal(value))
     if I.truth(v == 0, "factor:zero"):
         return DictObj({})
+    # np.sqrt(value) inside factor: a Python int outside [-2^63, 2^64) is not converted by numpy
+    tg = tag_of(value)
+    pyint = b_and(b_not(tg[0]), b_not(tg[1]))
+    if not (pyint is False) and I.truth(z3.And(zbool(pyint), z3.Or(v >= 2**64, v < -(2**63))), "factor:int-beyond-64-bits"):
+        I.raise_("TypeError", "loop of ufunc does not support argument 0 of type int", implicit=True, site="util.factor: np.sqrt of a Python int beyond 64 bits")
     mk = ("factor", v.sexpr())
     if mk in I.ps.memo:  # factor is a pure function: equal arguments give equal tables
         return I.ps.memo[mk]
@@ -273,6 +279,14 @@ class RuleRun:
             can = I.truth(can, "can")
         rep.applicable = bool(can)
         if not can:
+            # engine guard, other direction: on a sample of the paths where the engine says "not applicable"
+            # CPython must say the same on a concrete tree satisfying the path condition
+            exact = not any(isinstance(k, str) and k.startswith("abstraction:") for k in ps.memo)
+            if exact and (len(ps.labels) + sum(ord(c) for c in "".join(ps.labels))) % 2 == 0:
+                try:
+                    self._concolic_model(I, heap, node, list(ps.pc) + heap.kind_domains(), rep, expect=False)
+                except Exception as e:  # noqa: BLE001  (guards never mask verdicts)
+                    rep.note = f"engine guard skipped: {e!r}"
             return
         # ---------------- phase 2: apply_to
         w1 = len(ps.writes)
@@ -507,16 +521,29 @@ class RuleRun:
                         ok = None
                 if ok is not None:
                     rep.obligations.append(Obligation("ENGINE", "canary/shifted-value-not-provable", Verdict("proved" if ok else "refuted"), "" if ok else "false obligation was proved: path hypotheses are contradictory"))
-            s = z3.Solver()
-            s.set("timeout", 3000)
-            for c_ in pc:
-                s.add(c_)
-            for a in heap.pre_axioms(I):
-                s.add(a)
-            if s.check() == z3.sat:
-                rep.concolic = witness_from_model(I, heap, node, s.model(), self.cfg)
+            self._concolic_model(I, heap, node, pc, rep, expect=True)
         except Exception as e:  # noqa: BLE001  (guards never mask verdicts)
             rep.note = f"engine guard skipped: {e!r}"
+
+    def _concolic_model(self, I, heap, node, pc, rep, expect):
+        s = z3.Solver()
+        s.set("timeout", 3000)
+        for c_ in pc:
+            s.add(c_)
+        for a in heap.pre_axioms(I):
+            s.add(a)
+        # prefer small constants (util.factor is trial division: a boundary-sized model costs minutes natively)
+        small = [z3.And(o.ghost["cval"] >= -1000, o.ghost["cval"] <= 1000) for o in list(heap.nodes) if isinstance(o.ghost, dict) and dict.__contains__(o.ghost, "cval")]
+        s.push()
+        for c_ in small:
+            s.add(c_)
+        if s.check() != z3.sat:
+            s.pop()
+            if s.check() != z3.sat:
+                return
+        rep.concolic = witness_from_model(I, heap, node, s.model(), self.cfg)
+        if isinstance(rep.concolic, dict):
+            rep.concolic["expect_applicable"] = bool(expect)
 
     timeout_ms = 10000
     want = None
